@@ -2305,3 +2305,7 @@ SUBCHECKS = [
     Sub('history-independence', check_history, strategy=strat_history, classify=classify_history,
         nontrivial=nontrivial_history, n=(3000, 30000), shards=(16, 32)),
 ]
+
+# the same generated cases, several at a time, checked by threads that run at the same time (core.run_overlapping): per-call state
+# kept in a place two calls share shows only there
+SUBCHECKS.append(__import__('harness.core', fromlist=['overlapped']).overlapped(next(s for s in SUBCHECKS if s.name == 'programs-random'), k=3, n=(40, 1200)))
